@@ -162,8 +162,18 @@ class Gen:
         body = [self.leaf("implicit none", "LPlain")]
         for _ in range(r.choice([0, 1, 2])):
             body.append(self.decl())
+        types_here = []
         for _ in range(r.choice([0, 1, 2])):
-            body.append(r.choice([self.typ, self.interface])())
+            item = r.choice([self.typ, self.interface])()
+            if item.get("sym") == "type":
+                types_here.append(item["name"])
+            elif item.get("sym") == "interface" and types_here and r.random() < 0.5:
+                # a generic interface with the name of a derived type of the same unit (a user-defined constructor)
+                tn = types_here[-1]
+                item["open"] = "interface %s" % tn
+                item["end"] = "end interface %s" % tn if "end interface " in item["end"] else item["end"]
+                item["name"] = tn
+            body.append(item)
         if kind == "program":
             body.append(self.leaf("integer :: x, y, i, arr(3)", "LVar false"))
             body += self.exec_body(1)
